@@ -703,8 +703,8 @@ def check(tier, seed):
     )
 
     rng = random.Random(seed)
-    nconf = 120 if tier == 'quick' else 2500
-    per = 16 if tier == 'quick' else 40
+    nconf = 120 if tier == "quick" else 1500
+    per = 16 if tier == "quick" else 32
     confs = [gen_config(rng, i, big=(i % 15 == 0)) for i in range(nconf)]
     t_impl = time.time()
     cases = []  # (conf index, cfg, peer, outcome, universe)
